@@ -10,7 +10,10 @@ EXPLANATION = ("Which documents satisfy a query tree is a runtime question and i
                "segment must be chosen by a test that looks at the query matcher (or a plan-level summary of it): restricting "
                "candidates to documents containing a scored term is complete only when every match must contain one, which only "
                "the matcher can tell. A decision that looks at the scored-term list alone is incomplete for some tree (e.g. "
-               "bool{must:[match_all], should:[term]}).")
+               "bool{must:[match_all], should:[term]}). A second clause is a finite decision table: the default of a bool's "
+               "minimum_should_match is extracted from QueryEvaluator::matches_node by path enumeration over is_empty(should/must/"
+               "filter) and must be 0 / 1 / 0 (no should; should without must or filter; should with must or filter — the case the "
+               "statement spells out), and nothing derived from must_not may influence the threshold.")
 
 SEG = N.READER + "::search_segment"
 TERM_LIST_FIELDS = {"qualified_terms", "term_groups", "phrase_fields", "terms"}
